@@ -1,4 +1,5 @@
 import SupervisorModel.Lemmas.SupInvPass
+import SupervisorModel.Model.Robust
 /-
   C06 — the main loop survives anything its children, listeners or the kernel do.
 
@@ -141,5 +142,88 @@ def peA : PE := { name := 0, gid := 0, gprio := 999, prio := 999, cfg := cfgX }
 def peB : PE := { name := 1, gid := 1, gprio := 999, prio := 1, cfg := cfgX }
 example : (List.map (fun (e : PE) => e.name) ([peA] ++ [peB])).Nodup ∧ (∀ e ∈ [peA], e.p = {}) ∧
     (∀ e ∈ [peA] ++ [peB], 0 ≤ e.cfg.startsecs) := by decide
+
+/-! ### transient kernel errors on the spawn path, hostile bytes in the dispatchers
+
+  The process/daemon model above abstracts a failing spawn as the environment answer `pipeerr` /
+  `forkerr`.  That abstraction is only right if the failure really reaches `Subprocess.spawn` as an
+  exception of a class it handles.  `Sv.Robust.makePipes` interprets the regenerated statement table
+  of `ServerOptions.make_pipes` over a kernel in which any one `pipe()` / `fcntl()` call fails and in
+  which closing or fcntl-ing `None` is a TypeError (as in the real `os` / `fcntl`). -/
+section Robust
+open Sv.Robust Sv.Gen.Robust
+
+/-- `make_pipes` makes at most nine fallible system calls (three `pipe()`, two `fcntl()` for each of
+    the three parent-side descriptors), so a single failure is a failure at an index below 9 -/
+theorem make_pipes_call_count (us : Bool) : (makePipes us none).calls ≤ 9 := by
+  cases us <;> decide
+
+/-- without a failure: all requested descriptors, pairwise different, all open, `None` for the
+    stderr pair when no stderr pipe is wanted -/
+theorem make_pipes_ok :
+    (makePipes true none).res = .ok [("child_stdin", some 0), ("stdin", some 1), ("stdout", some 2), ("child_stdout", some 3),
+                                     ("stderr", some 4), ("child_stderr", some 5)] ∧
+    (makePipes true none).stillOpen = [0, 1, 2, 3, 4, 5] ∧
+    (makePipes false none).res = .ok [("child_stdin", some 0), ("stdin", some 1), ("stdout", some 2), ("child_stdout", some 3),
+                                      ("stderr", none), ("child_stderr", none)] ∧
+    (makePipes false none).stillOpen = [0, 1, 2, 3] := by decide
+
+/-- the descriptor stored under `key` by a successful `make_pipes` -/
+def fdOf (us : Bool) (key : String) : Option Nat :=
+  match (makePipes us none).res with
+  | .ok p => (p.lookup key).join
+  | _ => none
+
+/-- **every parent-side descriptor is non-blocking**: the ends the main loop reads (stdout, stderr) and
+    writes (stdin) — a blocking one would hang the single-threaded loop on a child that does not
+    read its stdin or on a spurious wake-up — and only those (the child's ends stay blocking) -/
+theorem make_pipes_parent_ends_nonblocking (us : Bool) :
+    (∀ key ∈ ["stdin", "stdout", "stderr"], ∀ fd, fdOf us key = some fd → fd ∈ (makePipes us none).nonblock) ∧
+    (∀ key ∈ ["child_stdin", "child_stdout", "child_stderr"], ∀ fd, fdOf us key = some fd → fd ∉ (makePipes us none).nonblock) ∧
+    fdOf us "stdin" ≠ none ∧ fdOf us "stdout" ≠ none ∧ (us = true → fdOf us "stderr" ≠ none) := by
+  cases us <;> decide
+
+/-- **a failing `pipe()` or `fcntl()` leaves `make_pipes` as an OSError with every descriptor it had
+    opened closed again** — for the first, second and third pipe and every `fcntl`, with or without a
+    stderr pipe (an index beyond the calls actually made is no failure at all).  In particular the
+    clean-up never replaces the OSError by a TypeError (`os.close(None)`) and leaks nothing. -/
+theorem make_pipes_fails_cleanly (us : Bool) (i : Fin 9) :
+    ((makePipes us (some i.val)).res = .raised .oserror ∧ (makePipes us (some i.val)).stillOpen = []) ∨
+    makePipes us (some i.val) = makePipes us none := by
+  revert us i; decide
+
+/-- every one of those indices below the call count is a real failure (the disjunction above is not
+    satisfied trivially) -/
+theorem make_pipes_failure_is_raised (us : Bool) (i : Fin 9) (h : i.val < (makePipes us none).calls) :
+    (makePipes us (some i.val)).res = .raised .oserror := by
+  revert us i; decide
+
+/-- **`spawn()` handles whatever `make_pipes` raises**: the process goes to BACKOFF (the model's
+    `pipeerr`), nothing travels on through `transition()` to `runforever()`; the same for `fork()` -/
+theorem spawn_survives_pipe_failure (us : Bool) (f : Option (Fin 9)) :
+    spawnSurvives (makePipes us (f.map (·.val))) = true := by
+  cases f with
+  | none => revert us; decide
+  | some i => revert us i; decide
+
+theorem spawn_handles_fork_failure : catchesOSError spawnForkCatches = true := by decide
+
+-- why the `None` test of the clean-up matters: `os.close(None)` is a TypeError, which neither an `except OSError`
+-- around `os.close` nor an `except (OSError, IOError)` around `make_dispatchers()` catches
+example : catchesTypeError ["OSError"] = false ∧ catches ["OSError", "IOError"] .typeerror = false ∧
+    catches ["OSError", "IOError"] .oserror = true := by decide
+
+/-- **no conversion of child or listener bytes to text in a dispatcher is unguarded**: every strict
+    decode in supervisor/dispatchers.py sits in the body of a `try` that catches UnicodeDecodeError
+    (dispatcher code is run by `finish()` → `drain()` outside the loop's per-dispatcher guard, where an
+    escaping exception ends `runforever()`) -/
+theorem dispatcher_decodes_guarded : ∀ site ∈ dispatcherDecodeSites, catchesDecodeError site.2.2 = true := by decide
+
+/-- `readfd` turns the transient errnos of a non-blocking pipe read into "no data" -/
+theorem readfd_tolerates_transient :
+    catchesOSError readfdCatches = true ∧ errnoEAGAIN ∈ readfdToleratesNum ∧ errnoEINTR ∈ readfdToleratesNum ∧
+    errnoEBADF ∈ readfdToleratesNum := by decide
+
+end Robust
 
 end Sv.Props.C06
